@@ -5,8 +5,11 @@ p="$(readlink -f "$1")"; shift
 cd /verif || exit 2
 if [ -n "$(git -C /repo status --porcelain --untracked-files=no)" ]; then echo "try_patch: /repo is dirty"; exit 2; fi
 git -C /repo apply "$p" || { echo "try_patch: patch does not apply"; exit 2; }
-trap 'git -C /repo checkout -- . ; exit' INT TERM
+# evidence written while /repo is patched must never replace the evidence of the unchanged tree
+bk="$(mktemp -d /verif/sim/target/tmp/evidence-backup.XXXXXX)"; cp -a /verif/evidence/. "$bk"/ 2>/dev/null
+restore() { git -C /repo checkout -- . ; rm -rf /verif/evidence; mkdir -p /verif/evidence; cp -a "$bk"/. /verif/evidence/; rm -rf "$bk"; }
+trap 'restore; exit 2' INT TERM
 "$@"; rc=$?
-git -C /repo checkout -- .
+restore
 echo "try_patch: exit=$rc (repo restored)"
 exit $rc
